@@ -528,7 +528,7 @@ impl Packet {
                 let token = buf[4..options_start].to_vec();
 
                 let mut idx = options_start;
-                let mut options_number = 0;
+                let mut options_number: u16 = 0;
                 let mut options: BTreeMap<u16, LinkedList<Vec<u8>>> =
                     BTreeMap::new();
                 while idx < buf.len() {
@@ -562,7 +562,9 @@ impl Packet {
                                 idx,
                                 idx + 1,
                                 u16
-                            )) + 269;
+                            ))
+                            .checked_add(269)
+                            .ok_or(MessageError::InvalidOptionDelta)?;
                             idx += 2;
                         }
                         15 => {
@@ -601,7 +603,9 @@ impl Packet {
                         _ => {}
                     };
 
-                    options_number += delta;
+                    options_number = options_number
+                        .checked_add(delta)
+                        .ok_or(MessageError::InvalidOptionDelta)?;
 
                     let end = idx + length;
                     if end > buf.len() {
